@@ -15,7 +15,6 @@ import (
 	"os"
 	"regexp"
 	"runtime"
-	"runtime/pprof"
 	"sort"
 	"strconv"
 	"strings"
@@ -56,7 +55,10 @@ func sig(c Case, fail string) string {
 	return c.Conv + "/" + classOf(c.Devs) + "/" + fail
 }
 
-var execMarker = regexp.MustCompile(`C11-EXEC (\d+)\n`)
+var (
+	execMarker = regexp.MustCompile(`C11-EXEC (\d+)\n`)
+	volatile   = regexp.MustCompile(`(0x|goroutine |C11-EXEC )[0-9a-f]+`)
+)
 
 const maxCrashes = 300
 
@@ -129,6 +131,8 @@ func runCases(run *evid.Run, cases []Case, perJob int) []Result {
 			if k := strings.LastIndex(st, "C11-EXEC"); k >= 0 {
 				st = st[k:]
 			}
+			// addresses and goroutine numbers differ from run to run; the replay file should not
+			st = volatile.ReplaceAllString(st, "$1?")
 			results[culprit] = Result{Fail: kind, Msg: tail(st, 4000)}
 			crashes++
 			var rest []int
@@ -174,11 +178,6 @@ func main() {
 		// dump per call) is 10-20 times cheaper this way and executions become more deterministic
 		runtime.GOMAXPROCS(1)
 		sysx.HangLimit = 20 * time.Second
-		if pf := os.Getenv("C11_PROF"); pf != "" {
-			f, _ := os.Create(pf)
-			pprof.StartCPUProfile(f) //nolint:errcheck
-			evid.ServeWorker(func(raw json.RawMessage) any { r := worker(raw); pprof.StopCPUProfile(); f.Close(); return r })
-		}
 		evid.ServeWorker(worker)
 	}
 	run := evid.New("C11", "fault_enumeration")
@@ -270,9 +269,6 @@ func main() {
 			{Handlers: "all", UDP: true, TLS: true}, {Handlers: "describeonly", UDP: false, Second: true}}
 		fullCfgs = 2
 	}
-	if os.Getenv("C11_ONLYCFG") == "tls" {
-		cfgs = []Cfg{{Handlers: "all", UDP: true, TLS: true}}
-	}
 	var cases []Case
 	counts := map[string]int{}
 	addCase := func(kind string, c Case) {
@@ -301,6 +297,7 @@ func main() {
 		}
 	}
 	run.Set("single_deviations_per_conversation", catalogue)
+	run.Set("configurations", fmt.Sprint(cfgs))
 	// truncation at every byte offset, then close / then silence
 	streamBytes := map[string]int{}
 	for _, cn := range convNames {
@@ -339,17 +336,6 @@ func main() {
 	if os.Getenv("C11_VERBOSE") != "" {
 		fmt.Fprintf(os.Stderr, "round 1: %d cases %v\n", len(cases), counts)
 	}
-	if n := os.Getenv("C11_LIMIT"); n != "" {
-		var k int
-		fmt.Sscan(n, &k)
-		var sub []Case
-		for i := 0; i < len(cases); i += max(1, len(cases)/k) {
-			sub = append(sub, cases[i])
-		}
-		cases = sub
-	}
-	run.Set("configurations", fmt.Sprint(cfgs))
-
 	type vio struct {
 		c Case
 		r Result
@@ -357,6 +343,11 @@ func main() {
 	bySig := map[string][]vio{}
 	survivable := map[string][]Dev{} // conv -> single deviations after which the connection stayed open (base cfg)
 	controlOutcome := map[string]string{}
+	var dump *os.File // C11_DUMP=<file>: one line per execution (case => outcome), to compare two runs
+	if f := os.Getenv("C11_DUMP"); f != "" {
+		dump, _ = os.Create(f)
+		defer dump.Close()
+	}
 	statusHist := map[string]int{} // "0" = no answer, "-1" = not sent (connection already closed by the server)
 	closedDuring, aliveAtEnd, withSecond, withTLS := 0, 0, 0, 0
 	classes := map[string]bool{}
@@ -377,6 +368,10 @@ func main() {
 			}
 			run.Eval(1)
 			run.Outcome(outcomeKey(c, r))
+			if dump != nil {
+				b, _ := json.Marshal(c)
+				fmt.Fprintf(dump, "%s => %s\n", b, outcomeKey(c, r))
+			}
 			for _, st := range r.Statuses {
 				statusHist[fmt.Sprint(st)]++
 			}
